@@ -67,7 +67,7 @@ func stateModules(incPath string) []stateMod {
 			touch: func(id string) string { return `class_alias('C20Same', 'C20Alias');` },
 			post:  `echo class_exists('C20Alias') ? (new C20Alias())->id() : 'noalias';`},
 		{name: "error_handler",
-			probe: `trigger_error("c20-probe-warning", E_USER_WARNING);`,
+			probe: `try { trigger_error("c20-probe-warning", E_USER_WARNING); echo "returned"; } catch (\Throwable $e) { echo "thrown:", $e->getMessage(); }`,
 			touch: func(id string) string {
 				return `set_error_handler(function($no, $str) { echo "[error-handler of ` + id + `: ", $str, "]"; return true; });`
 			}},
@@ -96,7 +96,7 @@ func stateModules(incPath string) []stateMod {
 		{name: "object_ids",
 			probe: `$t = new stdClass(); var_dump($t); echo spl_object_id($t) > 0 ? 'id' : 'noid';`,
 			touch: func(id string) string {
-				return `$c20_keep = [new C20Same(), new C20Same(), new stdClass()]; ob_start(); var_dump($c20_keep); ob_end_clean();`
+				return `$c20_keep = [new C20Same(), new C20Same(), new stdClass()]; echo "\n@B|touchout.object_ids\n"; var_dump($c20_keep); echo "\n@E|touchout.object_ids\n";`
 			}},
 		{name: "autoload",
 			probe: `echo count(spl_autoload_functions()), ",", class_exists('C20Missing') ? 'y' : 'n';`,
